@@ -85,6 +85,8 @@ def render_stmt(s, variant=0):
         return ".data_fill %s, %d" % (render_word(s["v"]), s["n"])
     if k == "bin":
         return '.binfile "%s"' % bin_file(bytes(s["b"]))
+    if k == "seg":
+        return ".bss" if s["bss"] else ".code"
     if k == "endian":
         return ".big_endian" if s["big"] else ".little_endian"
     if k == "label":
